@@ -68,6 +68,7 @@ pub fn emit(args: &Args, j: J) {
 pub fn quiet_panics() {
     // expected panics (injected ones, documented ones) are part of the workloads; keep stderr readable
     std::panic::set_hook(Box::new(|info| {
+        valloc::fail_suspend();
         let msg = info.to_string();
         if std::env::var("LRUVERIF_SHOW_PANICS").is_ok() { eprintln!("[panic] {}", msg); }
     }));
